@@ -69,7 +69,7 @@ def gen_lines(tier, seed):
     # round trip: offset then add back reproduces the instant (checked through the two exact oracles above on the same tuples)
     r = gen.seeded(seed, 'C17')
     rates = [1, 10, 1000, 10 ** 6, 10 ** 9]
-    nrand = 20000 if tier == 'quick' else 100000
+    nrand = 20000 if tier == 'quick' else 600000
     for i in range(nrand):
         tps = r.choice(rates) if r.random() < 0.8 else r.randrange(1, 10 ** 9 + 1)
         lim = I64MAX // tps
